@@ -90,6 +90,27 @@ def exact(a, b):
     return True
 
 
+def same_result(a, b, loose=False):
+    """what a formula gives in the original and in the loaded model: the same
+    cells hold the same builtin values and run the same code, so the results
+    are equal to the last bit.  Loose (tolerance of models.same): an iterative
+    model stops within its tolerance of the fixed point, from wherever the
+    earlier passes left it; and numpy.float64 written by the user before the
+    save stays numpy.float64 in the original (the suite pins that) while the
+    file holds the number - python's sum() adds the two kinds differently"""
+    if not models.same_value(a, b):
+        return False
+    if loose:
+        return True
+    if isinstance(a, (tuple, list)):
+        if a and a[0] == 'raises':
+            return True
+        return all(same_result(x, y) for x, y in zip(a, b))
+    if klass(a) == 'number':
+        return a == b
+    return True
+
+
 def steps_strategy(max_size=10):
     idx = st.integers(0, 40)
     value = st.sampled_from(SET_VALUES)
@@ -244,6 +265,7 @@ def check_case(rec, spec, hostile, fmt, cycles, extra, pre, post, loader,
         tmp = own_tmp.__enter__()
     state = dict(changed=False, writes=0)
     failure = []
+    loose = bool(cycles) or any(step[0] == 'setnp' for step in pre)
 
     def fail(key, msg):
         if not failure:
@@ -295,7 +317,8 @@ def check_case(rec, spec, hostile, fmt, cycles, extra, pre, post, loader,
                 defer.append(dict(
                     path=path, spec=spec, post=[list(s) for s in post],
                     cells={a: before[a] for a in saved_addrs},
-                    expected=expected, cycles=bool(cycles), case=case))
+                    expected=expected, cycles=bool(cycles), loose=loose,
+                    case=case))
                 return None
 
             # -- load ------------------------------------------------------------
@@ -320,11 +343,13 @@ def check_case(rec, spec, hostile, fmt, cycles, extra, pre, post, loader,
                 def compare_all():
                     for a in ordered:
                         got = models.safe_eval(loaded, a)
-                        # constants must round-trip exactly; formula results
-                        # may differ in the last bits (python's sum() is
-                        # compensated for plain floats only, loaded models
-                        # hold float subclasses)
-                        eq = models.same_value if is_formula(a) else exact
+                        # constants must round-trip exactly, and formula
+                        # results are equal to the last bit (python's sum()
+                        # treats plain floats and float subclasses
+                        # differently: a loaded model holding the loader's
+                        # scalar subclasses showed as -4 against -8)
+                        eq = (lambda x, y: same_result(x, y, loose)) \
+                            if is_formula(a) else exact
                         if not eq(before[a], got):
                             sheet, coord = a.rsplit('!', 1)
                             const = spec['sheets'].get(sheet, {}).get(coord)
@@ -404,8 +429,8 @@ def check_case(rec, spec, hostile, fmt, cycles, extra, pre, post, loader,
                             state['writes'] += 1
                         if o1 is None and o2 is None:
                             continue
-                        if o1 is None or o2 is None or not models.same_value(
-                                o1[2], o2[2]):
+                        if o1 is None or o2 is None or not same_result(
+                                o1[2], o2[2], loose):
                             vcls = text_class(step[2]) if step[0] == 'set' \
                                 else 'observe'
                             fail(f'history-differs:{fmt}:{vcls}' +
@@ -422,7 +447,7 @@ def check_case(rec, spec, hostile, fmt, cycles, extra, pre, post, loader,
                         for a in spec['formulas']:
                             v1 = models.safe_eval(original, a)
                             v2 = models.safe_eval(loaded, a)
-                            if not models.same_value(v1, v2):
+                            if not same_result(v1, v2, loose):
                                 fail(f'history-differs:{fmt}:final' +
                                      (':cycles' if cycles else ''),
                                      f'after the post-load history {a} is '
@@ -503,7 +528,7 @@ def check_save_sequence(rec, spec, steps):
                     for a in spec['formulas']:
                         v1 = models.safe_eval(model, a)
                         v2 = models.safe_eval(loaded, a)
-                        if not models.same_value(v1, v2):
+                        if not same_result(v1, v2):
                             failure.append((
                                 f'save-sequence:stale-{ext}' +
                                 (':content-reverted' if reverted else ''),
@@ -620,6 +645,44 @@ def check_error_members(rec):
                           'iterative}')
 
 
+def check_float_sums(rec):
+    """aggregates over several float constants: the result depends on the
+    last bit of every partial sum, and python's sum() only compensates for
+    plain floats - a loaded model which holds anything else than the floats
+    that were saved gives another last bit, which a difference of two close
+    totals turns into another number altogether"""
+    IN = wbspec.INSHEET
+    columns = {
+        'tenths': [0.1] * 10,
+        'big-small': [1e16, 0, 0, 2, 0.5, 1e16, 3, -1e16, 1, 0.25],
+        'thirds': [1 / 3, 2 / 3, 0.1, 0.2, 0.3, 0.7, 1e-9, 5, 0.6, 1.1],
+        'mixed': [0.1, 1, 0.2, 2, 0.3, True, 'x', None, 0.7, 1e15],
+    }
+    histories = [
+        [],
+        [('set', 0, 0.3), ('eval', 0), ('eval', 1)],
+        [('eval', 2), ('set', 3, 1e16), ('eval', 3), ('set', 3, 0.1),
+         ('eval', 0), ('eval', 4)],
+    ]
+    for (name, col), fmt, hist, loader in itertools.product(
+            columns.items(), ('yml', 'json', 'pkl'), histories,
+            ('same', 'thread')):
+        sheet = {f'A{i + 1}': v for i, v in enumerate(col) if v is not None}
+        sheet.update(
+            B1='=SUM(A1:A10)', B2='=SUM(A1:A10)-SUM(A1:A5)-SUM(A6:A10)',
+            B3='=AVERAGE(A1:A10)*10-B1', B4='=SUM(A1:A5,A6,0.3)-A1*2',
+            B5='=SUMPRODUCT(A1:A5,A6:A10)', B6='=A1+A2+A3-SUM(A1:A3)',
+            B7='=SUMIF(A1:A10,">0")-B1', B8='=MAX(A1:A10)-MIN(A1:A10)')
+        spec = dict(sheets={IN: {'B3': 1}, 'S': sheet}, arrays=[], names={},
+                    active='S', inputs=[f'S!A{i + 1}' for i in range(10)],
+                    formulas=[f'S!B{i + 1}' for i in range(8)],
+                    ranges=['S!A1:A10', 'S!A1:A5', 'S!A6:A10', 'S!A1:A3'])
+        check_case(rec, spec, [], fmt, False, None, [], hist, loader)
+    rec.exhaustive.append('float aggregates x 4 columns of constants x 3 '
+                          'formats x 3 post-load histories x {same thread, '
+                          'fresh thread}, results equal to the last bit')
+
+
 def check_open_findings(rec):
     from pycel.excelcompiler import ExcelCompiler
     for fmt in ('yml', 'json', 'pkl'):
@@ -713,6 +776,7 @@ def run_fresh_process(rec, jobs, tmp):
         for a, want in job['cells'].items():
             got = res['cells'].get(a)
             if norm(want) != got and not (
+                    job['loose'] and
                     klass(want) == 'number' and klass(got) == 'number' and
                     math.isclose(want, got, rel_tol=1e-9, abs_tol=1e-12)):
                 bad = (f'fresh-process:loaded-differs:{fmt}:'
@@ -722,7 +786,8 @@ def run_fresh_process(rec, jobs, tmp):
         if not bad:
             for step, want, got in zip(job['post'], job['expected'],
                                        res['obs']):
-                if norm(want) != got and not close_obs(norm(want), got):
+                if norm(want) != got and not (
+                        job['loose'] and close_obs(norm(want), got)):
                     bad = (f'fresh-process:history-differs:{fmt}{cyc}',
                            f'step {step}: original {want!r}, fresh process '
                            f'{got!r}')
@@ -750,6 +815,7 @@ def run_shard(shard, rec):
         check_open_findings(rec)
         check_source_hash(rec)
         check_error_members(rec)
+        check_float_sums(rec)
     elif shard['kind'] == 'saves-enum':
         import itertools
         spec = dict(sheets={'S': {'A1': 1, 'B1': 2, 'A2': '=A1+B1',
